@@ -254,7 +254,12 @@ def _shard(task: Tuple[str, int, int, int, int, str]) -> Report:
         chunk = scs[i:i + B]
         rs_runs = run_model("rs", [c[0] for c in chunk])
         for j, ((sc, labels), rr) in enumerate(zip(chunk, rs_runs)):
-            sample = (i + j) % 997 == 3
+            # keep evidence samples varied: one scenario from each of the first enumeration shards (an early index
+            # and one with several events) and the first scenario of the first random shards
+            if kind == "enum":
+                sample = shard < 2 and (i + j) == (37, 111)[shard]
+            else:
+                sample = shard < 2 and (i + j) == 0
             account(rep, "rs", sc, rr, labels, sample)
             account(rep, "py", sc, PY.run(sc), labels, sample)
     return rep
